@@ -276,7 +276,18 @@ def make_absset(eng, st, name):
 
 
 def absset_member(st, setref, ent):
-    return st.obj(setref).meta["member"](st, ent)
+    o = st.obj(setref)
+    if "member" not in o.meta:
+        # the code under verification replaced the abstract set by a concrete one (set() / list): membership by identity
+        if o.kind in ("set", "list") and isinstance(ent, R):
+            conds = []
+            for it in o.items:
+                for g, b_ in alts(it):
+                    if isinstance(b_, R) and b_.addr == ent.addr:
+                        conds.append(g)
+            return zor(*conds) if conds else BF
+        raise OutOfSubset("membership in a %s that replaced an abstract set" % o.kind)
+    return o.meta["member"](st, ent)
 
 
 # ---------------------------------------------------------------------------------------------
@@ -679,6 +690,29 @@ def fx_world(eng, st, pname):
         return eng_.ok(s, s.alloc(HObj("opaque", None, fields=flds,
                                        meta={"tag": "resolve_file", "methods": {"read": noop, "close": noop, "seek": noop}})))
 
+    def m_storage(eng_, s, recv, args, kwargs):
+        """an arbitrary implementation of the Storage interface: every call is logged ('storage:<method>'), may raise,
+        create returns an arbitrary non-None id"""
+        def mk(method):
+            def h(e_, s_, r_, a_, k_):
+                res = []
+                okf = z3.Bool(P.fresh_name("storage.%s.ok" % method))
+                eff = Effect("storage", "storage:" + method, list(a_), {"_held": s_.ghost.get("held", 0)}, None, tag=okf)
+                s2 = s_.clone()
+                s2.assume(znot(okf))
+                s2.effects.append(eff)
+                res.append((s2, (RAISE, e_.sym_exc(s2, [ClassRef("Exception")], prefix="storage.%s.exc" % method))))
+                s_.assume(okf)
+                v = NONE
+                if method == "create":
+                    v = P.fresh("int", "storage.create.eid")
+                eff.result = v
+                s_.effects.append(eff)
+                res.append((s_, (VAL, v)))
+                return res
+            return h
+        return eng_.ok(s, s.alloc(HObj("opaque", None, meta={"tag": "storage", "methods": {m: mk(m) for m in ("create", "update", "delete", "close")}})))
+
     fields = {"mgr": w["manager"], "state": w["state"], "p0": w["providers"][0], "p1": w["providers"][1],
               "providers": T(w["providers"]), "nmgr": w["nmgr"]}
     for k, v in cfg.items():
@@ -688,7 +722,7 @@ def fx_world(eng, st, pname):
                                                         "cloud_exception": m_cloud_exception,
                                                         "notification_manager": m_notification_manager,
                                                         "resolve_file": m_resolve_file,
-                                                        "event_manager": m_event_manager, "event": m_event}}))
+                                                        "event_manager": m_event_manager, "event": m_event, "storage": m_storage}}))
     eng.inputs[pname] = "world"
     return r
 
